@@ -203,13 +203,20 @@ Section Search.
   Variable metric : list Q -> list Q -> Q.
   Variable gib : bool.
   Variable ascending_expr : pyval -> pyval.
+  Variable F : Type.
   Variable P : Type.
-  Variable respond : P -> list (call XV) -> ydata.
-  Variable cutoff_after : P -> list (call XV) -> Z.
+  Variable apply_params : F -> P -> F.
+  Variable respond : F -> list (call XV) -> ydata.
+  Variable cutoff_after : F -> list (call XV) -> Z.
+  Variable base : F.
 
-  Notation tune_ := (tune XV tm yv xv metric gib ascending_expr P respond cutoff_after).
-  Notation cand_mean_ := (cand_mean XV tm yv xv metric P respond cutoff_after).
-  Notation fit_ := (tuner_fit XV tm yv xv metric gib ascending_expr P respond cutoff_after).
+  Notation tune_ :=
+    (tune XV tm yv xv metric gib ascending_expr F P apply_params respond cutoff_after base).
+  Notation cand_mean_ := (cand_mean XV tm yv xv metric F P apply_params respond cutoff_after base).
+  Notation fc_mean_ := (fc_mean XV tm yv xv metric F respond cutoff_after).
+  Notation shared_ := (shared_means XV tm yv xv metric F P apply_params respond cutoff_after).
+  Notation fit_ :=
+    (tuner_fit XV tm yv xv metric gib ascending_expr F P apply_params respond cutoff_after base).
 
   (* the expression passed as ascending= denotes `not greater_is_better` *)
   Definition ascending_is_negation : Prop := forall b, truthy (ascending_expr (PyBool b)) = negb b.
@@ -260,13 +267,16 @@ Section Search.
       + eapply Forall_impl; [|exact Hfb']. intros y Hy. cbv beta in Hy. apply Qnot_lt_le. exact Hy.
   Qed.
 
-  (* every candidate is evaluated by an independent evaluate() run on the SAME list of splits, and
-     its cv_results_ mean is the mean of that run's score column *)
+  (* every candidate is evaluated by an independent evaluate() run -- of a FRESH clone of the base
+     forecaster carrying that candidate's (partial) parameter dict, starting from an empty call
+     history -- on the SAME list of splits, and its cv_results_ mean is the mean of that run's
+     score column *)
   Theorem rows_eq_independent_evaluate sp st cands s : tune_ sp st cands = Ok s ->
     exists ss, splitter_splits sp = Ok ss /\
       Forall2 (fun p mean =>
                  exists rows tr,
-                   evaluate XV tm yv xv (respond p) (cutoff_after p) metric sp st = Ok (rows, tr) /\
+                   evaluate XV tm yv xv (respond (apply_params base p))
+                            (cutoff_after (apply_params base p)) metric sp st = Ok (rows, tr) /\
                    mean = qmean (map r_score rows) /\ length rows = length ss /\
                    tr = history XV tm yv xv st (zmin_list (splitter_fh sp)) ss)
               cands (s_means s).
@@ -277,14 +287,16 @@ Section Search.
     { subst s. destruct (select (ascending_expr (PyBool gib)) means). reflexivity. }
     rewrite Hm. clear Hs Hm.
     assert (Hss : exists ss, splitter_splits sp = Ok ss).
-    { subst cands. inversion HF as [|a b l l' Hab _]; subst. unfold cand_mean, cand_eval in Hab.
-      destruct (evaluate XV tm yv xv (respond c0) (cutoff_after c0) metric sp st) as [[rows tr]|] eqn:E;
+    { subst cands. inversion HF as [|a b l l' Hab _]; subst. unfold cand_mean, fc_mean, fc_eval in Hab.
+      destruct (evaluate XV tm yv xv (respond (apply_params base c0))
+                         (cutoff_after (apply_params base c0)) metric sp st) as [[rows tr]|] eqn:E;
         [|discriminate].
       destruct (evaluate_rows_are_splits _ _ _ _ _ _ _ _ _ _ _ E) as (ss & Hss & _). exists ss. exact Hss. }
     destruct Hss as (ss & Hss). exists ss. split; [exact Hss|].
     eapply Forall2_imp; [|exact HF]. intros p mean Hp. cbv beta in Hp.
-    unfold cand_mean, cand_eval in Hp.
-    destruct (evaluate XV tm yv xv (respond p) (cutoff_after p) metric sp st) as [[rows tr]|] eqn:E;
+    unfold cand_mean, fc_mean, fc_eval in Hp.
+    destruct (evaluate XV tm yv xv (respond (apply_params base p))
+                       (cutoff_after (apply_params base p)) metric sp st) as [[rows tr]|] eqn:E;
       [|discriminate].
     injection Hp as <-. exists rows, tr. split; [reflexivity|]. split; [reflexivity|].
     destruct (evaluate_rows_are_splits _ _ _ _ _ _ _ _ _ _ _ E) as (ss' & Hss' & Hlen & Htr & _).
@@ -299,34 +311,37 @@ Section Search.
     destruct (splitter_splits sp) as [ss|] eqn:Hss.
     - assert (Hall : forall l, exists means, all_ok (map (cand_mean_ sp st) l) = Ok means).
       { induction l as [|a t [means IH]]; [exists []; reflexivity|]. cbn [map all_ok].
-        unfold cand_mean at 1, cand_eval, evaluate. rewrite Hss.
+        unfold cand_mean at 1, fc_mean, fc_eval, evaluate. rewrite Hss.
         destruct (evaluate_splits _ _ _ _ _ _ _ _ _ _) as [rows tr]. rewrite IH. eexists. reflexivity. }
       destruct (Hall (c0 :: rest)) as (means & ->).
       destruct (select _ means). split; discriminate.
-    - cbn [map all_ok]. unfold cand_mean at 1, cand_eval, evaluate. rewrite Hss. split; reflexivity.
+    - cbn [map all_ok]. unfold cand_mean at 1, fc_mean, fc_eval, evaluate. rewrite Hss. split; reflexivity.
   Qed.
 
   (* ---- after fit --------------------------------------------------------------------------- *)
 
-  Notation run_ := (tuner_run XV P respond cutoff_after).
-  Notation direct_ := (direct_run XV P respond cutoff_after).
+  Notation run_ := (tuner_run XV F P apply_params respond cutoff_after base).
+  Notation direct_ := (direct_run XV F respond cutoff_after).
 
   Lemma tuner_run_refit : forall script t, tn_refit XV P t = true ->
-    run_ t script = direct_ (s_best (tn_search XV P t)) (tn_calls XV P t) script.
+    run_ t script =
+    direct_ (apply_params base (s_best (tn_search XV P t))) (tn_calls XV P t) script.
   Proof.
     induction script as [|o r IH]; intros t Hr; [reflexivity|].
     cbn [tuner_run direct_run]. unfold tuner_step. rewrite Hr. f_equal.
     rewrite IH by reflexivity. reflexivity.
   Qed.
 
-  (* with refit, predict / update / cutoff of the tuner are those of a forecaster with the best
-     parameters that was fitted on the WHOLE series (and nothing else) *)
+  (* with refit, predict / update / cutoff of the tuner are those of a FRESH clone of the base
+     forecaster with the best parameters set (not of any object used during the search) that was
+     fitted on the WHOLE series (and nothing else) *)
   Theorem refit_equals_direct_forecaster sp st cands fhabs t : fit_ sp st cands true fhabs = Ok t ->
     exists s, tune_ sp st cands = Ok s /\ tn_search XV P t = s /\
     let nn := match sp with SWindow _ c => n c | SSingle nn _ _ => nn end in
     forall script,
       run_ t script =
-      direct_ (s_best s) [Fit (y_at tm yv (zrange 0 nn 1)) (x_at XV tm xv (zrange 0 nn 1)) fhabs] script.
+      direct_ (apply_params base (s_best s))
+              [Fit (y_at tm yv (zrange 0 nn 1)) (x_at XV tm xv (zrange 0 nn 1)) fhabs] script.
   Proof.
     unfold tuner_fit. destruct (tune_ sp st cands) as [s|]; [|discriminate].
     intro H. injection H as <-. exists s. split; [reflexivity|]. split; [reflexivity|].
@@ -342,15 +357,100 @@ Section Search.
     induction script as [|o r IH]; [reflexivity|]. cbn [tuner_run map]. unfold tuner_step.
     cbn [tn_refit]. f_equal. exact IH.
   Qed.
+  (* ---- candidate isolation --------------------------------------------------------------- *)
+
+  Lemma all_ok_app {A} (l1 l2 : list (res A)) :
+    all_ok (l1 ++ l2) =
+    match all_ok l1, all_ok l2 with Ok a, Ok b => Ok (a ++ b) | _, _ => Err end.
+  Proof.
+    induction l1 as [|x t IH]; cbn [app all_ok].
+    - destruct (all_ok l2); reflexivity.
+    - destruct x as [a|]; [|reflexivity]. rewrite IH.
+      destruct (all_ok t), (all_ok l2); reflexivity.
+  Qed.
+
+  Lemma all_ok_length {A} (l : list (res A)) o : all_ok l = Ok o -> length o = length l.
+  Proof.
+    revert o. induction l as [|x t IH]; intros o H; cbn in H.
+    - injection H as <-. reflexivity.
+    - destruct x as [a|]; [|discriminate]. destruct (all_ok t) as [o'|]; [|discriminate].
+      cbn in H. injection H as <-. cbn. f_equal. apply IH. reflexivity.
+  Qed.
+
+  Lemma tune_means sp st cands s : tune_ sp st cands = Ok s ->
+    all_ok (map (cand_mean_ sp st) cands) = Ok (s_means s).
+  Proof.
+    intro H. destruct (tune_inv sp st cands s H) as (c0 & rest & means & Hc & Hall & Hs).
+    rewrite Hall. f_equal. subst s. destruct (select (ascending_expr (PyBool gib)) means). reflexivity.
+  Qed.
+
+  (* the row of a candidate is a function of that candidate alone: whatever candidates were
+     evaluated before it (pre) or come after it (post), its mean is the mean of an evaluate() run
+     of `apply_params base p` -- in particular the same as in the one-candidate search [p] *)
+  Theorem candidate_isolation sp st pre p post s : tune_ sp st (pre ++ p :: post) = Ok s ->
+    exists m, fc_mean_ sp st (apply_params base p) = Ok m /\
+      nth (length pre) (s_means s) 0%Q = m /\
+      exists s1, tune_ sp st [p] = Ok s1 /\ s_means s1 = [m] /\ s_best s1 = p.
+  Proof.
+    intro H. pose proof (tune_means sp st _ s H) as Hm. rewrite map_app, all_ok_app in Hm.
+    destruct (all_ok (map (cand_mean_ sp st) pre)) as [mpre|] eqn:Epre; [|discriminate].
+    cbn [map all_ok] in Hm. unfold cand_mean at 1 in Hm.
+    destruct (fc_mean_ sp st (apply_params base p)) as [m|] eqn:Em; [|discriminate].
+    destruct (all_ok (map (cand_mean_ sp st) post)) as [mpost|]; [|discriminate].
+    cbn in Hm. injection Hm as Hm. exists m. split; [reflexivity|]. split.
+    - rewrite <- Hm. rewrite app_nth2; rewrite (all_ok_length _ _ Epre), map_length; [|lia].
+      rewrite Nat.sub_diag. reflexivity.
+    - unfold tune. cbn [map all_ok]. unfold cand_mean. rewrite Em. cbn [rcons].
+      destruct (select (ascending_expr (PyBool gib)) [m]) as [rk bi] eqn:Es.
+      eexists. split; [reflexivity|]. cbn [s_means s_best]. split; [reflexivity|].
+      assert (Hbi : bi = 0).
+      { unfold select in Es. injection Es as _ <-. reflexivity. }
+      subst bi. reflexivity.
+  Qed.
+
+  (* two searches that contain the same candidate report the same mean for it *)
+  Corollary candidate_mean_independent_of_other_candidates sp st pre p post pre' post' s s' :
+    tune_ sp st (pre ++ p :: post) = Ok s -> tune_ sp st (pre' ++ p :: post') = Ok s' ->
+    nth (length pre) (s_means s) 0%Q = nth (length pre') (s_means s') 0%Q.
+  Proof.
+    intros H H'. destruct (candidate_isolation _ _ _ _ _ _ H) as (m & Hm & Hn & _).
+    destruct (candidate_isolation _ _ _ _ _ _ H') as (m' & Hm' & Hn' & _).
+    rewrite Hm in Hm'. injection Hm' as <-. rewrite Hn, Hn'. reflexivity.
+  Qed.
+
+  (* why a shared instance goes unnoticed with an ordinary grid: when every candidate overrides
+     whatever an earlier candidate set (all dicts name the same parameters), the loop with one shared
+     instance computes exactly the search's means *)
+  Definition overriding (cands : list P) : Prop :=
+    forall q p f, In q cands -> In p cands -> apply_params (apply_params f q) p = apply_params f p.
+
+  Theorem shared_instance_harmless_when_overriding sp st cands : overriding cands ->
+    shared_ sp st base cands = map (cand_mean_ sp st) cands.
+  Proof.
+    intro Hov.
+    assert (G : forall l inst, (forall p, In p l -> In p cands) ->
+                (forall p, In p l -> apply_params inst p = apply_params base p) ->
+                shared_ sp st inst l = map (cand_mean_ sp st) l).
+    { induction l as [|p t IH]; intros inst Hin Hinst; [reflexivity|].
+      cbn [shared_means map]. cbv zeta. unfold cand_mean at 1.
+      rewrite (Hinst p (or_introl eq_refl)). f_equal.
+      apply IH.
+      - intros q Hq. apply Hin. right. exact Hq.
+      - intros q Hq. apply Hov; [apply Hin; left; reflexivity|apply Hin; right; exact Hq]. }
+    apply G; [intros p Hp; exact Hp|intros; reflexivity].
+  Qed.
 End Search.
 
 (* ---- non-vacuity ------------------------------------------------------------------------------- *)
 
-Definition ex_cands : list fc8 := [F8 (FDouble 1 0 0 0 0); F8 (FNaive true None); F8 (FDouble 1 0 0 0 0)].
+(* base forecaster: the double `last value + 0 * #windows`; a list-of-dicts grid whose candidates
+   name DIFFERENT parameters: {d: -2}, {e: 0} (leaves d at the base value 0), {d: -2, tag: 1} *)
+Definition ex_base : fc8 := F8 (FDouble 1 0 0 0 0).
+Definition ex_cands : list (list pset) := [[PCoef 3 (-2)]; [PCoef 4 0]; [PCoef 3 (-2); PTag 1]].
 
 Example ex_tune_nonvacuous :
   exists s answers,
-    model_tune ex_sp 7 ex_y None Refit MMAE false ex_cands true [17]
+    model_tune ex_sp 7 ex_y None Refit MMAE false ex_base ex_cands true [17]
                [OpPredict [17; 18] None; OpCutoff] = Ok (s, answers) /\
     s_best_index s = 1 /\ length (s_means s) = 3%nat /\
     map (fun r => Qeq_bool r 1 || Qeq_bool r (5 # 2)) (s_ranks s) = [true; true; true] /\
